@@ -12,6 +12,8 @@ Body grammar (JSON lists; booleans may be 0/1 or true/false):
   ['nop'] ['rc',k] ['rn',k] ['sr',b] ['nest',b,B] ['fr',caught] ['cap'] ['seq',A,B] ['h',k,B]
   ['fx',bound,[k..],[[k,k']..],B] ['fc',bound,[k..],[[k,k']..],k] ['rp','d'|'n'|'r<k>',B]
   ['rwc','N'|'none'|k]
+  ['nt',b,B,LATE]     with sre(reraise=b) as c': B   and, if the with ended normally, LATE on the exited c'
+  ['hnt',k,b,B,LATE]  try: raise E[k] / except: with sre(reraise=b) as c': B   and, after the try, LATE on c'
 """
 import contextlib
 import itertools
@@ -36,7 +38,8 @@ RULE = ('handler bodies over {nop, raise-and-catch, raise, reraise on/off, neste
         '(operations on an un-entered context) x initial flag x exception classes {plain, constructor-with-arguments, '
         'chained, carrying a prior traceback, BaseException subclass}; exception_filter (function-made / bound-method) '
         'as context manager and called directly, remove_path_on_error (default / custom / raising remove x '
-        'absent / file / directory) and raise_with_cause around all bodies of <= 2 operations; plus random bodies '
+        'absent / file / directory) and raise_with_cause around all bodies of <= 2 operations; operations (force_reraise, '
+        'capture, ...) on a context after its with block ended normally, inside and after the except clause; plus random bodies '
         'over the whole grammar. A case is non-trivial when its body contains at least one helper operation and at '
         'least one exception was actually raised (some traceback is non-empty); distinct by (flag, kinds, path, body)')
 TRUSTED_BASE = [
@@ -95,22 +98,22 @@ def size(b):
         return 1 + size(b[4])
     if t == 'rp':
         return 1 + size(b[2])
+    if t == 'nt':
+        return 1 + size(b[2]) + size(b[3])
+    if t == 'hnt':
+        return 1 + size(b[3]) + size(b[4])
     return 1
 
 
+CHILD_IDX = {'seq': (1, 2), 'nest': (2,), 'h': (2,), 'rp': (2,), 'fx': (4,), 'nt': (2, 3), 'hnt': (3, 4)}
+
+
 def children(b):
-    t = b[0]
-    if t == 'seq':
-        return [b[1], b[2]]
-    if t in ('nest', 'h', 'rp'):
-        return [b[2]]
-    if t == 'fx':
-        return [b[4]]
-    return []
+    return [b[i] for i in CHILD_IDX.get(b[0], ())]
 
 
 def has_helper(b):
-    return b[0] in ('nest', 'fr', 'cap', 'fx', 'fc', 'rp', 'rwc') or any(has_helper(c) for c in children(b))
+    return b[0] in ('nest', 'fr', 'cap', 'fx', 'fc', 'rp', 'rwc', 'nt', 'hnt') or any(has_helper(c) for c in children(b))
 
 
 def has_rp(b):
@@ -133,7 +136,9 @@ def force_caught(b, under_filter=False):
 
 def in_class_N1(b):
     """Some save_and_reraise_exception context in the program (c0 or a nested one) has a body in the class."""
-    if b[0] == 'nest' and force_caught(b[2]):
+    if b[0] in ('nest', 'nt') and force_caught(b[2]):
+        return True
+    if b[0] == 'hnt' and force_caught(b[3]):
         return True
     return any(in_class_N1(c) for c in children(b))
 
@@ -162,6 +167,10 @@ def ser(b):
         return 'rp %s %s' % (b[1], ser(b[2]))
     if t == 'rwc':
         return 'rwc %s' % b[1]
+    if t == 'nt':
+        return 'nt %d %s %s' % (B(b[1]), ser(b[2]), ser(b[3]))
+    if t == 'hnt':
+        return 'hnt %d %d %s %s' % (b[1], B(b[2]), ser(b[3]), ser(b[4]))
     raise ValueError('bad body %r' % (b,))
 
 
@@ -211,17 +220,27 @@ def render(body, spy):
                 emit(b[2], ind + 1, ctx)
         elif t == 'sr':
             lines.append(p + 'c%d.reraise = %s' % (ctx, bool(b[1])))
-        elif t == 'nest':
+        elif t in ('nest', 'nt', 'hnt'):
             i = fresh()
-            head = 'with X.save_and_reraise_exception(reraise=%s, logger=L) as c%d:' % (bool(b[1]), i)
+            flag, inner = (b[2], b[3]) if t == 'hnt' else (b[1], b[2])
+            q, wi = p, ind
+            if t == 'hnt':
+                lines.append(p + 'try:')
+                lines.append(p + '    raise E[%d]' % b[1])
+                lines.append(p + 'except BaseException:')
+                q, wi = p + '    ', ind + 1
+            head = 'with X.save_and_reraise_exception(reraise=%s, logger=L) as c%d:' % (bool(flag), i)
             if spy:
-                lines.append(p + 'with SPY.sre_out(%d):' % i)
-                lines.append(p + '    ' + head)
-                lines.append(p + '        with SPY.sre_in(%d, c%d):' % (i, i))
-                emit(b[2], ind + 3, i)
+                lines.append(q + 'with SPY.sre_out(%d):' % i)
+                lines.append(q + '    ' + head)
+                lines.append(q + '        with SPY.sre_in(%d, c%d):' % (i, i))
+                emit(inner, wi + 3, i)
             else:
-                lines.append(p + head)
-                emit(b[2], ind + 1, i)
+                lines.append(q + head)
+                emit(inner, wi + 1, i)
+            if t != 'nest':
+                # reached only when the with statement (and the try) ended normally: operations on the exited c<i>
+                emit(b[-1], ind, i)
         elif t == 'fr':
             q = p
             if b[1]:
@@ -611,6 +630,10 @@ def bodies_upto(n):
             yield seq_of(s)
 
 
+# operations on a context whose `with` block has already ended normally
+LATES = [['fr', 0], ['fr', 1], ['cap'], ['seq', ['cap'], ['fr', 0]], ['seq', ['fr', 1], ['fr', 0]],
+         ['seq', ['sr', 1], ['fr', 0]], ['seq', ['rc', 0], ['fr', 0]]]
+
 PREDS = [([0], []), ([1], []), ([], []), ([0, 1], []), ([], [[0, 1]]), ([1], [[0, 0]]), ([0], [[1, 0]])]
 
 
@@ -623,9 +646,15 @@ def random_body(rng, budget, depth=0):
         if depth < 4 and budget > 1 and r < 0.38:
             sub_budget = rng.randrange(1, budget)
             sub = random_body(rng, sub_budget, depth + 1)
-            kind = rng.choice(['nest', 'nest', 'h', 'h', 'fx', 'rp'])
+            kind = rng.choice(['nest', 'nest', 'h', 'h', 'fx', 'rp', 'nt', 'hnt'])
             if kind == 'nest':
                 items.append(['nest', rng.randrange(2), sub])
+            elif kind in ('nt', 'hnt'):
+                # a body that usually completes with the flag off, then operations on the exited context
+                inner = seq_of([sub, ['sr', 0]]) if rng.random() < 0.6 else sub
+                late = rng.choice(LATES) if rng.random() < 0.7 else random_body(rng, rng.randrange(1, 3), depth + 1)
+                items.append(['nt', rng.randrange(2), inner, late] if kind == 'nt'
+                             else ['hnt', k, rng.randrange(2), inner, late])
             elif kind == 'h':
                 items.append(['h', k, sub])
             elif kind == 'fx':
@@ -705,7 +734,20 @@ def gen_cases(ctx):
         for w in wrappers:
             for kind in KINDS:
                 yield {'flag': 1, 'kinds': [kind, kind, 'plain'], 'path': 'file', 'body': w(['rwc', x])}, 'rwc'
-    # 4. random bodies over the whole grammar
+    # 4. operations on the context after its `with` block ended normally (flag off at exit): inside the
+    #    `except` clause (h 0 (nt …)) and after it (hnt 0 …)
+    for m in range(0, 3 if ctx.quick else 4):
+        for sq in seqs(m):
+            body = seq_of(sq)
+            kind_sets = [[k, k, 'plain'] for k in KINDS] if m <= 1 else [[rng.choice(KINDS), rng.choice(KINDS), 'plain']]
+            for late in LATES:
+                for kinds in kind_sets:
+                    for b in (0, 1):
+                        yield {'flag': 1, 'kinds': kinds, 'path': 'file',
+                               'body': ['h', 0, ['nt', b, body, late]]}, 'late-in-except/%d' % m
+                        yield {'flag': 1, 'kinds': kinds, 'path': 'file',
+                               'body': ['hnt', 0, b, body, late]}, 'late-after-except/%d' % m
+    # 5. random bodies over the whole grammar
     for _ in range(4000 if ctx.quick else 150000):
         body = random_body(rng, rng.randrange(1, 10))
         yield {'flag': rng.randrange(2), 'kinds': [rng.choice(KINDS) for _ in range(3)],
@@ -823,8 +865,15 @@ class Spy:
             elif val is not orig:
                 self.fail('force-not-original', 'force_reraise() raised %s, captured was %s' % (w(val), w(orig)))
             elif t0 and self.view.tags(val.__traceback__)[-len(t0):] != t0:
+                # also for a force_reraise() made after the `with` block ended normally: the saved object must
+                # come with the traceback it had when it was saved
                 self.fail('force-traceback-lost', 'traceback %s does not end with the captured %s'
                           % (self.view.tags(val.__traceback__), t0))
+            else:
+                tags = self.view.tags(val.__traceback__)
+                added = tags[:len(tags) - len(t0)]
+                if added.count('S') > 1 or any(t not in ('S', 'F') for t in added):
+                    self.fail('force-traceback-polluted', 'captured traceback %s came back as %s' % (t0, tags))
         return _Probe(enter, exit)
 
     def captured(self, i):
@@ -1023,18 +1072,9 @@ def shrink_body(body, still_fails):
     def variants(b):
         for c in children(b):
             yield c
-        t = b[0]
-        if t == 'seq':
-            for v in variants(b[1]):
-                yield ['seq', v, b[2]]
-            for v in variants(b[2]):
-                yield ['seq', b[1], v]
-        elif t in ('nest', 'h', 'rp'):
-            for v in variants(b[2]):
-                yield b[:2] + [v]
-        elif t == 'fx':
-            for v in variants(b[4]):
-                yield b[:4] + [v]
+        for i in CHILD_IDX.get(b[0], ()):
+            for v in variants(b[i]):
+                yield b[:i] + [v] + b[i + 1:]
     steps = 0
     progress = True
     while progress and steps < 300:
@@ -1061,6 +1101,12 @@ def search(ctx, seeds, full=False):
                 for kinds in (['plain', 'plain', 'plain'], ['args', 'base', 'plain']):
                     yield {'flag': 1, 'kinds': kinds, 'path': 'file', 'body': ['h', 0, ['nest', b, body]]}
                     yield {'flag': b, 'kinds': kinds, 'path': 'file', 'body': body}
+        for body in bodies_upto(1 if not full else 2):
+            for late in LATES:
+                for b in (0, 1):
+                    for kinds in (['plain', 'plain', 'plain'], ['prior', 'args', 'plain']):
+                        yield {'flag': 1, 'kinds': kinds, 'path': 'file', 'body': ['h', 0, ['nt', b, body, late]]}
+                        yield {'flag': 1, 'kinds': kinds, 'path': 'file', 'body': ['hnt', 0, b, body, late]}
         for bound in (0, 1):
             for acc, rais in PREDS:
                 for inner in (['rn', 0], ['rn', 1], ['nop'], ['h', 0, ['nest', 1, ['nop']]]):
